@@ -102,11 +102,12 @@ _ALL = {
         technique="path enumeration + symbolic identity detection; parameter-forwarding rule over resolved call sites",
     ),
     "C06": dict(
-        want=["K1", "K2", "P6", "P8", "K6", "U1"],
+        want=["K1", "K2", "P6", "P8", "K6", "U1", "F1"],
         explanation=("Decides that no information flows from a null-key row into group state: every per-group state access "
                      "indexed by a code is dominated by a null test (K1); every code re-mapping preserves -1 (K2); a null "
                      "slot is allocated wherever codes index result arrays (P6); null-key rows get a constant marker in "
-                     "cumulative outputs (P8); row counters advance on skipped rows (K6)."),
+                     "cumulative outputs (P8); row counters advance on skipped rows (K6)."
+                     ' Every factorization route gives a null key the code -1 (F1): a key that is given an ordinary code forms a group.'),
         not_decided=["third-party null detection in the delegated factorization routes"],
         technique="fact-walker dominance over inferred code variables; null-preservation idiom table",
     ),
